@@ -209,7 +209,9 @@ class SimKernel:
         if proc is None:
             return None
         if proc.dead:
-            return proc
+            # a killed process executes nothing any more: should the code under test have swallowed the exception
+            # that unwinds its thread (an `except BaseException`), the next system call raises it again
+            raise ProcessKilled()
         proc.syscalls += 1
         if self.trace_enabled:
             self.log.append((round(proc.now, 6), proc.name, name))
